@@ -41,16 +41,16 @@ Qed.
 
 (* an emitter record of the new state, traced back: type and (once assigned) node are stable *)
 Lemma emitter_back : forall st t l st' j m', step st t = Some (l, st') -> nth_error (emitters st') j = Some m' ->
-  exists m, nth_error (emitters st) j = Some m /\ mty m' = mty m /\ (2 <= mnew m -> mnode m' = mnode m)%nat /\ (mnew m <= mnew m')%nat.
+  exists m, nth_error (emitters st) j = Some m /\ mty m' = mty m /\ (2 <= mnew m -> mnode m' = mnode m)%nat /\ (mnew m <= mnew m')%nat /\ (mcl m' = C0 -> mcl m = C0).
 Proof.
   intros st t l st' j m' E Hj.
-  assert (Same : emitters st' = emitters st -> exists m, nth_error (emitters st) j = Some m /\ mty m' = mty m /\ (2 <= mnew m -> mnode m' = mnode m)%nat /\ (mnew m <= mnew m')%nat).
-  { intros H. rewrite H in Hj. exists m'. auto. }
+  assert (Same : emitters st' = emitters st -> exists m, nth_error (emitters st) j = Some m /\ mty m' = mty m /\ (2 <= mnew m -> mnode m' = mnode m)%nat /\ (mnew m <= mnew m')%nat /\ (mcl m' = C0 -> mcl m = C0)).
+  { intros H. rewrite H in Hj. exists m'. auto 6. }
   destruct t; try (apply Same; eapply emitters_other; [|exact E]; exact I); cbn [step] in E.
   - unfold step_emnew in E. destruct (nth_error (emitters st) j0) as [m|] eqn:Ej; [|discriminate].
     assert (U : forall stx n a, emitters stx = emitters st -> (2 <= mnew m -> n = mnode m)%nat -> (mnew m <= a)%nat -> nth_error (emitters (set_emitter stx j0 (m_new m n a))) j = Some m' ->
-                exists m0, nth_error (emitters st) j = Some m0 /\ mty m' = mty m0 /\ (2 <= mnew m0 -> mnode m' = mnode m0)%nat /\ (mnew m0 <= mnew m')%nat).
-    { intros stx n a Hx Hn Ha H. cbn in H. rewrite Hx in H. apply nth_error_upd_inv in H. destruct H as [[-> [-> _]]|[N H]]; [exists m; cbn; auto|exists m'; auto]. }
+                exists m0, nth_error (emitters st) j = Some m0 /\ mty m' = mty m0 /\ (2 <= mnew m0 -> mnode m' = mnode m0)%nat /\ (mnew m0 <= mnew m')%nat /\ (mcl m' = C0 -> mcl m0 = C0)).
+    { intros stx n a Hx Hn Ha H. cbn in H. rewrite Hx in H. apply nth_error_upd_inv in H. destruct H as [[-> [-> _]]|[N H]]; [exists m; cbn; auto 6|exists m'; auto 6]. }
     destruct (mnew m) as [|[|[|[|?]]]] eqn:En; try discriminate.
     + inversion E; subst. eapply (U st (mnode m) 1%nat); [reflexivity|intros; lia|lia|exact Hj].
     + destruct (with_node st (mty m)) as [[st1 n]|] eqn:Ew; [|discriminate]. inversion E; subst.
@@ -59,12 +59,12 @@ Proof.
       eapply (U (set_node st (mnode m) _) (mnode m) 3%nat); [reflexivity|auto|lia|exact Hj].
     + inversion E; subst. eapply (U st (mnode m) 4%nat); [reflexivity|auto|lia|exact Hj].
   - unfold step_emclose in E. destruct (nth_error (emitters st) j0) as [m|] eqn:Ej; [|discriminate].
-    assert (U : forall stx c p, emitters stx = emitters st -> nth_error (emitters (set_emitter stx j0 (m_cl m c p))) j = Some m' ->
-                exists m0, nth_error (emitters st) j = Some m0 /\ mty m' = mty m0 /\ (2 <= mnew m0 -> mnode m' = mnode m0)%nat /\ (mnew m0 <= mnew m')%nat).
-    { intros stx c p Hx H. cbn in H. rewrite Hx in H. apply nth_error_upd_inv in H. destruct H as [[-> [-> _]]|[N H]]; [exists m; cbn; auto|exists m'; auto]. }
-    destruct (mcl m); try discriminate; try solve [brute E; inversion E; subst; eapply (U _ _ _ eq_refl Hj)].
+    assert (U : forall stx c p, emitters stx = emitters st -> p <> C0 -> nth_error (emitters (set_emitter stx j0 (m_cl m c p))) j = Some m' ->
+                exists m0, nth_error (emitters st) j = Some m0 /\ mty m' = mty m0 /\ (2 <= mnew m0 -> mnode m' = mnode m0)%nat /\ (mnew m0 <= mnew m')%nat /\ (mcl m' = C0 -> mcl m0 = C0)).
+    { intros stx c p Hx Hp H. cbn in H. rewrite Hx in H. apply nth_error_upd_inv in H. destruct H as [[-> [-> _]]|[N H]]; [exists m; cbn; repeat split; auto; intros X; contradiction|exists m'; auto 6]. }
+    destruct (mcl m); try discriminate; try solve [brute E; inversion E; subst; (eapply (U _ _ _ eq_refl); [|exact Hj]); first [discriminate | match goal with |- (if ?b then _ else _) <> _ => destruct b; discriminate end]].
     apply otau_Some in E. destruct E as [E _]. apply option_map_Some in E. destruct E as [x [E ->]].
-    eapply (U x); [apply (proj2 (try_drop_emits _ _ _ E))|exact Hj].
+    eapply (U x true (C4 0)); [apply (proj2 (try_drop_emits _ _ _ E))|discriminate|exact Hj].
 Qed.
 
 Lemma ok_step_other : forall pre l k, (forall c, l <> Some (LRet (TEmit k) c)) -> a_ok (pre ++ olab l) k = a_ok pre k.
